@@ -74,6 +74,12 @@ pub open spec fn fresh(out: &RecursionOutput, params: &ProveNextLayerParams) -> 
 
 #[derive(Clone, Copy, PartialEq, Eq, Debug, Structural)]
 pub struct AggregationCircuitFingerprint { pub witness_count: u32, pub public_flat_len: usize, pub private_flat_len: usize, pub ops_len: usize }
+/// `n.next_power_of_two()` (uninterpreted: only used to let a rounded counter be read for what it is -- not the counter)
+pub uninterp spec fn npow2_u32(n: u32) -> u32;
+pub uninterp spec fn npow2_usize(n: usize) -> usize;
+pub trait Npow2: Sized { spec fn sp_npow2(self) -> Self; fn npow2_(self) -> (r: Self) ensures r == self.sp_npow2(); }
+impl Npow2 for u32 { open spec fn sp_npow2(self) -> u32 { npow2_u32(self) } #[verifier::external_body] fn npow2_(self) -> (r: u32) { unimplemented!() } }
+impl Npow2 for usize { open spec fn sp_npow2(self) -> usize { npow2_usize(self) } #[verifier::external_body] fn npow2_(self) -> (r: usize) { unimplemented!() } }
 pub open spec fn fp_of(c: Cid) -> AggregationCircuitFingerprint {
     AggregationCircuitFingerprint { witness_count: c.witness_count, public_flat_len: c.public_flat_len, private_flat_len: c.private_flat_len, ops_len: c.ops.len() as usize }
 }
@@ -174,6 +180,7 @@ def build():
 
     fp = u.extract(R, '', 'aggregation_circuit_fingerprint', 'aggregation_circuit_fingerprint')
     fp.set_sig('R11', 'fn aggregation_circuit_fingerprint(circuit: &Circuit) -> AggregationCircuitFingerprint')
+    fp.rewrite_re('R11', r'\.next_power_of_two\(\)', '.npow2_()', min_count=0)
     fp.ensures('reads_all_four_counters', 'ret == fp_of(cid(circuit))')
 
     def common(f):
